@@ -390,13 +390,12 @@ func c15socketCase(t *testing.T, r *rt.Run, c *rt.Case, variant int) {
 		}
 	}()
 	// free UDP port
-	pc, err := net.ListenPacket("udp", "127.0.0.1:0")
+	gwPort, err := freeUDPPort()
 	if err != nil {
 		c.Inconclusive("no loopback UDP: " + err.Error())
 		return
 	}
-	gwAddr := pc.LocalAddr().String()
-	pc.Close()
+	gwAddr := fmt.Sprintf("127.0.0.1:%d", gwPort)
 	gw := gateway.NewGateway(util.NoOpLogger{}, &gateway.GatewayConfig{MqttBrokerAddress: ln.Addr().(*net.TCPAddr), MqttConnectionTimeout: 2 * time.Second,
 		PredefinedTopics: stdPredefined(), RetryDelay: time.Second, RetryCount: 1})
 	ctx, cancel := context.WithCancel(context.Background())
